@@ -2239,6 +2239,22 @@ func (a *Authenticator) handleClientAuthentication(ctx context.Context, negotiat
 			continue
 		}
 
+		// The server must choose among the methods this client offered. Running
+		// whatever single bit comes back would let the peer steer the client into a
+		// method its policy never enabled (e.g. CLAIMTOBE when only FS was listed),
+		// or back into one that already failed and was withdrawn from the bitmask.
+		offered := false
+		for _, m := range clientMethods {
+			if m == selectedMethod {
+				offered = true
+				break
+			}
+		}
+		if !offered || serverResponse&availableBitmask == 0 {
+			return fmt.Errorf("server selected authentication method %s (bitmask 0x%x) that the client did not offer (0x%x)",
+				selectedMethod, serverResponse, availableBitmask)
+		}
+
 		slog.Debug(fmt.Sprintf("🔐 CLIENT: Attempting authentication method: %s", selectedMethod), "destination", "cedar")
 
 		// Perform the specific authentication method
